@@ -282,6 +282,16 @@ func genVariants(rng *rand.Rand, full *listing, m *vecModel, ids *idGen, n int) 
 			o.DocIDs = append(o.DocIDs, ids.absent())
 		case 3: // singleton absent id
 			o.DocIDs = []uint32{ids.absent()}
+		case 4: // ONLY removed ids (pending tombstones first): nothing is eligible, the answer is empty - not unrestricted
+			rm := sortedKeys(m.removed)
+			for _, id := range rm {
+				if m.resident[id] || rng.IntN(2) == 0 {
+					o.DocIDs = append(o.DocIDs, id)
+				}
+			}
+			if len(o.DocIDs) == 0 && len(rm) > 0 {
+				o.DocIDs = []uint32{rm[rng.IntN(len(rm))]}
+			}
 		}
 		if len(o.DocIDs) > 1 {
 			// callers hand restriction lists in any order and with repeats
